@@ -461,6 +461,8 @@ class C10Main(SigProp):
         f = {"backend_" + case["backend"], f"streams_{len(stream_windows(case))}"}
         if impl["warnings"]:
             f.add("overflow")
+        if impl.get("listen_checked"):
+            f.add("owner_dropped_while_listened_to")
         for op, out in zip(case["ops"], impl["out"]):
             f.add(op["op"] + ":" + (out[0].split(" ")[0] if out else "-"))
             if op["op"] == "dispatch" and op.get("n", 1) > 1:
